@@ -5,7 +5,7 @@ from __future__ import annotations
 import ast
 
 from mpsa.cfg import CFG, Node, calls_in, header_expr, walk_shallow
-from mpsa.flow import count_minmax, dominators, fmt_path, path_avoiding, reaching_defs
+from mpsa.flow import count_minmax, dominators, fmt_path, path_avoiding, reachable, reaching_defs
 from mpsa.loader import AnchorError, FuncInfo, dotted, norm_text
 from mpsa.match import Scope, is_name, is_none, method_of, unwrap_await, walk_shallow_func
 from mpsa.report import Checker
@@ -28,7 +28,11 @@ def run(ck: Checker):
     ck.rule('C12-3', 'the result collector resolves the process future exactly once on every exit, including EOF (child killed) and a failing recv; it never raises out of its thread with the future pending (EXITS)')
     ck.rule('C12-4', 'join/result/exception read the future only after the OS-level join and (process) the collector-thread join; the not-done path leaves before touching it (PRECEDE)', minimum=6)
     ck.rule('C12-5', 'wait/as_completed map futures back to workers by the same key they indexed with (SIBLING)', minimum=4)
+    ck.rule('C12-6', "a raised exception carries the thread's traceback text: Thread.run attaches the formatted traceback as __cause__ on every path that stores the exception (MUSTPASS)")
     check_thread_run(ck, 'C12-1')
+    check_thread_traceback(ck, 'C12-6')
+    ck.rule('C12-7', 'pipe ownership: the write end of the result pipe lives only in a mapping created by SpawnProcess.__init__ (never in the caller\'s kwargs dict), so that a killed child is seen as EOF (ORIGIN)')
+    check_pipe_ownership(ck, 'C12-7')
     check_process_run(ck, 'C12-2')
     check_collector(ck, 'C12-3')
     check_accessors(ck, 'C12-4')
@@ -52,6 +56,78 @@ def check_thread_run(ck: Checker, rid: str):
             bad.append(f'a path ends with the future resolved {lo}..{hi} times')
     ck.paths_examined += len(res)
     ck.ob(rid, f, (f.node.lineno, 'Thread.run'), not bad, '; '.join(bad) if bad else 'every path (target returns, SystemExit in each form, any other BaseException, no target) resolves `_future_` exactly once and run() never raises')
+
+
+def check_thread_traceback(ck: Checker, rid: str):
+    """The catch-all handler of Thread.run attaches the thread's traceback text (as `__cause__`, before `__traceback__`
+    is cleared) on every path on which it stores the exception -- also for an exception that already has a cause
+    (`raise X from Y`, an exception re-raised from a joined worker)."""
+    f = ck.repo.func(THREADING, 'Thread.run')
+    cfg = build_cfg(f, ck.repo, _target_fallible(f))
+    probs = []
+    n_handlers = 0
+    for h in cfg.nodes:
+        if h.kind != 'except' or not h.ast.name:
+            continue
+        e = h.ast.name
+        body_ids = reachable(cfg, [h.id])
+        fmt = [k for k in cfg.nodes if k.id in body_ids and k.kind == 'stmt' and isinstance(k.ast, ast.Assign) and 'format_exception' in norm_text(k.ast.value)]
+        if not fmt:
+            continue  # a handler that does not format a traceback (SystemExit: no traceback is reported for a plain exit)
+        n_handlers += 1
+        causes = {k.id for k in cfg.nodes if k.id in body_ids and k.kind == 'stmt' and isinstance(k.ast, ast.Assign) and any(dotted(t) == f'{e}.__cause__' for t in k.ast.targets)}
+        stores = [k for k in cfg.nodes if k.id in body_ids and header_expr(k) is not None and any(method_of(c)[1] == 'set_exception' and c.args and is_name(c.args[0], e) for c in calls_in(header_expr(k)))]
+        clears = {k.id for k in cfg.nodes if k.id in body_ids and k.kind == 'stmt' and isinstance(k.ast, ast.Assign) and any(dotted(t) == f'{e}.__traceback__' for t in k.ast.targets)}
+        if not causes:
+            probs.append(f'the handler at L{h.lineno} formats the traceback but never attaches it to the exception')
+            continue
+        for st in stores:
+            p = path_avoiding(cfg, [h.id], {st.id}, avoid=causes)
+            if p is not None:
+                probs.append(f'the exception can be stored (L{st.lineno}) without the thread\'s traceback text attached — the assignment of `{e}.__cause__` is conditional: an exception that already has a cause reaches join()/result()/exception() without the text and the thread name' + (' (its own `__traceback__` is cleared all the same)' if clears else ''))
+        for c_ in clears:
+            p = path_avoiding(cfg, [h.id], {c_}, avoid={k.id for k in fmt})
+            if p is not None:
+                probs.append('`__traceback__` can be cleared before the traceback text was formatted')
+    if not n_handlers:
+        probs.append('no handler of Thread.run formats the traceback of the failed target')
+    ck.ob(rid, f, (f.node.lineno, 'traceback text'), not probs, '; '.join(sorted(set(probs))) if probs else 'the catch-all handler formats the traceback and attaches it as `__cause__` on every path before it stores the exception')
+
+
+def check_pipe_ownership(ck: Checker, rid: str):
+    """The parent must not keep the write end of the result pipe open outside the process object: EOF on the read end
+    -- the only sign of a child killed before it reported -- arrives only when every copy of the write end is gone.
+    `__init__` therefore stores it in a mapping it created itself (`{}` / `dict(kwargs)` / a copy), never in the
+    caller's own `kwargs` dict, which the caller may keep alive."""
+    from mpsa.flow import definitely_assigned
+
+    f = ck.repo.func(CONTEXT, 'SpawnProcess.__init__')
+    cfg = build_cfg(f, ck.repo, None)
+    ck.analysed_func(f, cfg)
+    stores = [n for n in cfg.nodes if n.kind == 'stmt' and isinstance(n.ast, ast.Assign) and any(isinstance(t, ast.Subscript) and isinstance(t.slice, ast.Constant) and t.slice.value == '_result_and_error_' and isinstance(t.value, ast.Name) for t in n.ast.targets)]
+    ck.need(stores, f'{f.key}: the store of the result pipe into the kwargs mapping was not found')
+    st = stores[0]
+    m = [t.value.id for t in st.ast.targets if isinstance(t, ast.Subscript)][0]
+    probs = []
+
+    def fresh(v):
+        if isinstance(v, ast.Dict):
+            return True  # {} or {**kwargs, ...}
+        if isinstance(v, ast.Call):
+            d = dotted(v.func) or ''
+            if d == 'dict' or d.endswith('.copy') or d in ('copy.copy', 'copy.deepcopy'):
+                return True
+        return False
+
+    da = definitely_assigned(cfg, start=cfg.entry).get(st.id, frozenset())
+    if m in f.params() and m not in da:
+        probs.append(f'on some path `{m}` is still the mapping the caller passed in when the write end of the result pipe is stored in it: the caller\'s dict keeps that end open in the parent, so a child killed before reporting never produces EOF — join()/result()/wait() block for ever')
+    for d in reaching_defs(cfg, m, start=cfg.entry).get(st.id, frozenset()):
+        dn = cfg.nodes[d]
+        v = getattr(dn.ast, 'value', None)
+        if dn.kind == 'stmt' and isinstance(dn.ast, ast.Assign) and not fresh(v):
+            probs.append(f'L{dn.lineno}: `{norm_text(dn.ast)[:50]}` can leave `{m}` bound to the caller\'s own dict; the write end of the result pipe is then stored in it and stays open in the parent (a killed child never produces EOF)')
+    ck.ob(rid, f, st.ast, not probs, '; '.join(sorted(set(probs))) if probs else f'the write end is stored in a mapping created by __init__ itself; the caller keeps no reference to it')
 
 
 def check_process_run(ck: Checker, rid: str):
